@@ -238,6 +238,8 @@ def gen_config(rng, cls, nmax=3, closed=False, allow_periodic=True, kinds=None, 
     cfg["lam"] = enc(rng.choice([Fr(-2), Fr(1, 2), Fr(3)]))
     cfg["limiters"] = rng.sample(LIMITERS, nlim or 3)
     cfg["const"] = enc(rng.choice([-2, 1, 3]))
+    cfg["lin_alpha"] = enc(rng.choice([-1, 0, 2]))
+    cfg["lin_beta"] = [enc(rng.choice([-2, -1, 1, 3])) for _ in range(d)]
     # boundary conditions
     bc = {}
     for a in range(d):
@@ -303,6 +305,51 @@ def _nonsingular(cfg, a, high, A, B, dims):
         if coef == 0:
             return False
     return True
+
+
+def gen_means_config(rng, cls, nmax=3, positive=True, zeros=False):
+    """cell sizes in {1, 2} (integer widths) and, for positive data, sixth powers {1, 64, 729}
+    so that every weighted geometric mean is rational"""
+    cfg = gen_config(rng, cls, nmax=nmax, allow_periodic=False)
+    d = drive.dim(cls)
+    faces = []
+    for a in range(d):
+        lab = drive.AXIS_LABELS[cls][a]
+        n = len(cfg["faces"][a]) - 1
+        steps = [rng.choice([1, 2]) for _ in range(n)]
+        lo = Fr(1) if lab in ("r", "theta") else Fr(0)
+        if cls == "SphericalGrid3D" and lab == "theta":
+            steps = steps[:2] if sum(steps[:2]) <= 2 else [1, 1][:n]
+            steps = steps[:max(1, min(n, 2))]
+            if sum(steps) > 2:
+                steps = [1] * len(steps)
+        f = [lo]
+        for st in steps:
+            f.append(f[-1] + st)
+        faces.append(f)
+    cfg["faces"] = [[enc(x) for x in f] for f in faces]
+    dims = [len(f) - 1 for f in faces]
+    full = [n + 2 for n in dims]
+    if positive:
+        vals = [1, 64, 729]
+    elif zeros:
+        vals = [0, 0, 1, 2, 4]
+    else:
+        vals = [-2, -1, 0, 1, 2, 3]
+    cfg["phi"] = nested(full, lambda ix: enc(rng.choice(vals)))
+    cfg["u"] = [nested(face_shape(dims, a), lambda ix: enc(rng.choice([-2, -1, 0, 1, 2]))) for a in range(d)]
+    cfg["uup"] = cfg["u"]
+    cfg["D"] = [nested(face_shape(dims, a), lambda ix: enc(1)) for a in range(d)]
+    for key in ("beta", "gamma", "alpha"):
+        cfg[key] = nested(dims, lambda ix: enc(1))
+    for a in range(d):
+        for s_ in SIDES[a]:
+            shp = trans_shape(dims, a)
+            cfg["bc"][s_] = {"a": nested(shp, lambda ix: enc(1)), "b": nested(shp, lambda ix: enc(0)),
+                             "c": nested(shp, lambda ix: enc(0)), "periodic": False, "kind": "neumann"}
+    cfg["data"] = "positive" if positive else ("zeros" if zeros else "arbitrary")
+    cfg["const"] = enc(rng.choice([1, 3]))
+    return cfg
 
 
 # ----------------------------------------------------------------------------- building
@@ -449,6 +496,26 @@ def observe(cfg, want):
             obs["harmmean"] = face_nested(P.harmonicMean(phi), d)
         if "upmean" in W:
             obs["upmean"] = face_nested(P.upwindMean(phi, c.u), d)
+        if "geomean" in W:
+            obs["geomean"] = face_nested(P.geometricMean(phi), d)
+        if "constmeans" in W:
+            cv = float(dec(cfg["const"])) if dec(cfg["const"]) > 0 else 2.0
+            cphi = P.CellVariable(c.m, cv * np.ones([n + 2 for n in c.dims]))
+            obs["constmeans"] = {"linear": face_nested(P.linearMean(cphi), d),
+                                 "arithmetic": face_nested(P.arithmeticMean(cphi), d),
+                                 "harmonic": face_nested(P.harmonicMean(cphi), d),
+                                 "geometric": face_nested(P.geometricMean(cphi), d),
+                                 "upwind": face_nested(P.upwindMean(cphi, c.u), d)}
+        if "linmean_linear" in W:
+            # cell-centre samples of  alpha + sum beta_a x_a, ghost centres mirrored across the boundary
+            cen = []
+            for a in range(d):
+                f = [float(dec(q)) for q in cfg["faces"][a]]
+                cc = [0.5 * (f[i] + f[i + 1]) for i in range(len(f) - 1)]
+                cen.append(np.array([f[0] - 0.5 * (f[1] - f[0])] + cc + [f[-1] + 0.5 * (f[-1] - f[-2])]))
+            grids = np.meshgrid(*cen, indexing="ij")
+            lin = float(dec(cfg["lin_alpha"])) + sum(float(dec(cfg["lin_beta"][a])) * grids[a] for a in range(d))
+            obs["linmean_linear"] = face_nested(P.linearMean(P.CellVariable(c.m, lin)), d)
         if "Msrc" in W:
             obs["Msrc"] = mat_entries(P.linearSourceTerm(P.CellVariable(c.m, to_float_array(cfg["beta"]))), c.dims)
         if "Rsrc" in W:
